@@ -59,7 +59,20 @@ def _backlog(S):
     return S["running"] >= 1 and bool(qlen) and qlen[0] >= 1
 
 
-CONDITIONS = {"workers_gone_while_stopping": _workers_gone_while_stopping, "backlog": _backlog}
+def _one_worker_gone_while_stopping(S):
+    flags = [k for k in S if k.startswith("P.") and k.endswith("_done_event.flag")]
+    states = [v for k, v in S.items() if k.startswith("W.state[")]
+    return bool(flags) and S[flags[0]] and any(v == 3 for v in states) and any(v == 2 for v in states)
+
+
+def _stop_markers_queued(S):
+    flags = [k for k in S if k.startswith("P.") and k.endswith("_done_event.flag")]
+    qlen = [v for k, v in S.items() if k.startswith("P.") and k.endswith("_queue.len")]
+    alive = sum(1 for k, v in S.items() if k.startswith("W.state[") and v == 2)
+    return bool(flags) and S[flags[0]] and alive >= 2 and bool(qlen) and qlen[0] >= alive
+
+
+CONDITIONS = {"stop_markers_queued": _stop_markers_queued, "one_worker_gone_while_stopping": _one_worker_gone_while_stopping, "workers_gone_while_stopping": _workers_gone_while_stopping, "backlog": _backlog}
 
 
 def run_prefix(system, state, prefix):
